@@ -144,9 +144,10 @@ theorem C18_slot_move (S : Settings) (s : St) (e : Ev) : SlotMove S s (deliver S
     simp only [deliver]
     split
     · rename_i hc
+      have hl : (s.conn c).live = false := by cases hcc : s.conn c <;> simp_all [Phase.isFree, Phase.live]
       split
-      · exact .same (sameSlots_setConn s c _ (by simp [hc, Phase.live]))
-      · rename_i hlt; refine .taken c (by omega) (by simp [hc, Phase.live]) (by simp [St.setConn, Phase.live]) rfl (fun d hd => by simp [St.setConn, hd])
+      · exact .same (sameSlots_setConn s c _ (by rw [hl]; rfl))
+      · rename_i hlt; refine .taken c (by omega) hl (by simp [St.setConn, Phase.live]) rfl (fun d hd => by simp [St.setConn, hd])
     · exact .same (SameSlots.refl s)
   | armWriteFault c => exact .same ⟨rfl, fun _ => rfl⟩
   | leave c o =>
@@ -266,7 +267,7 @@ theorem C18_bound (S : Settings) (es : List Ev) : SlotInv S (run S init es).1 :=
 
 /-- **refused beyond the limit:** a connection arriving when all slots are taken is closed at once,
 receives nothing, and has no influence: nothing but its own (closed) phase changes. -/
-theorem C18_refused (S : Settings) (s : St) (c : Nat) (hc : s.conn c = .absent) (hfull : S.required ≤ s.slots) :
+theorem C18_refused (S : Settings) (s : St) (c : Nat) (hc : (s.conn c).isFree = true) (hfull : S.required ≤ s.slots) :
     (deliver S s (.connect c)).2 = [.refused c] ∧ (deliver S s (.connect c)).1.agents = s.agents ∧
     (deliver S s (.connect c)).1.ids = s.ids ∧ (deliver S s (.connect c)).1.slots = s.slots ∧
     (deliver S s (.connect c)).1.startEv = s.startEv ∧ ∀ d, d ≠ c → (deliver S s (.connect c)).1.conn d = s.conn d := by
@@ -274,7 +275,7 @@ theorem C18_refused (S : Settings) (s : St) (c : Nat) (hc : s.conn c = .absent) 
   exact ⟨trivial, rfl, rfl, rfl, rfl, fun d hd => by simp [St.setConn, hd]⟩
 
 /-- **served below the limit:** once fewer than the limit are connected, a new connection is served -/
-theorem C18_served (S : Settings) (s : St) (c : Nat) (hc : s.conn c = .absent) (hfree : s.slots < S.required) :
+theorem C18_served (S : Settings) (s : St) (c : Nat) (hc : (s.conn c).isFree = true) (hfree : s.slots < S.required) :
     (deliver S s (.connect c)).1.conn c = .reading ∧ (deliver S s (.connect c)).2 = [] := by
   have : ¬ S.required ≤ s.slots := by omega
   simp [deliver, hc, this, St.setConn]
